@@ -3,10 +3,13 @@
 //!
 //! * key variants of the same constraint system: one selector row differs / one copy constraint differs / one fixed
 //!   cell differs / `k` differs — `transcript_repr` must differ and the base proof must be rejected;
-//! * the constraint-system field the key hash does NOT cover: the phase of an advice column that no gate, lookup or
-//!   copy constraint queries, in a circuit without challenges (`Debug for PinnedConstraintSystem` prints
-//!   `advice_column_phase` only when `num_challenges > 0`). Two circuits that differ only there have the same
-//!   `transcript_repr` but their verifiers read the advice commitments in different orders;
+//! * REGRESSION of the repaired finding `vk-component-not-in-repr:advice-phase-unqueried` (fixed in /repo caa493e):
+//!   the phase of an advice column that no gate, lookup or copy constraint queries, in a circuit without challenges.
+//!   `Debug for PinnedConstraintSystem` used to print `advice_column_phase` only when `num_challenges > 0`, so two
+//!   circuits that differ only there had the same `transcript_repr` although their verifiers read the advice
+//!   commitments in different orders (and a proof for one was accepted under the key of the other when the
+//!   unqueried column duplicated a queried unblinded column). Oracle: the two `transcript_repr`s differ and the
+//!   cross-verification is rejected;
 //! * `csdebug` correspondence lines: the actual `format!("{:?}", cs.pinned())` string, split into its top-level
 //!   fields by the harness; the Lean driver splits the same string itself and checks the field names against the
 //!   generated order list (`Gen.csDebugOrder`);
@@ -234,7 +237,9 @@ pub fn csdebug_case(ctx: &mut Ctx, class: &str, vk: &VerifyingKey<F, Scheme>) {
         None => "unparsed".to_string(),
     };
     let nch = vk.cs().challenge_phase().len();
-    ctx.case(&format!("csdebug:{class}"), true, &format!("csdebug nch={nch} cs={}", hex(s.as_bytes())), &ans);
+    let ap = vk.cs().advice_column_phase();
+    let aps = if ap.is_empty() { "none".to_string() } else { mzkh::join(&ap) };
+    ctx.case(&format!("csdebug:{class}"), true, &format!("csdebug nch={nch} ap={aps} cs={}", hex(s.as_bytes())), &ans);
 }
 
 /// Everything the real `prepare` absorbs for a statement before it reads the first proof element.
@@ -290,7 +295,7 @@ pub fn run(ctx: &mut Ctx) {
         }
     }
 
-    // --- the field the key hash does not cover: phase of an unqueried advice column, no challenge
+    // --- regression (fixed caa493e): phase of an unqueried advice column, no challenge, must be in the key hash
     for (unblinded, same) in [(false, false), (true, true)] {
         let pa = MiniParams { u_phase: Some(1), unblinded, ..base_p.clone() };
         let pb = MiniParams { u_phase: Some(0), unblinded, ..base_p.clone() };
